@@ -1138,6 +1138,6 @@ def jobs(tier, batch_seed):
     from simkit.driver import std_jobs
     if tier == 'thorough':
         return std_jobs([('generate_enum', 32), ('generate_bridge', 48), ('generate_keys', 4000), ('generate_io', 6000),
-                         ('generate', 20000), ('generate_disk', 6000)], batch_seed)
+                         ('generate', 20000), ('generate_disk', 6000)], batch_seed, interleave_from=2)
     return std_jobs([('generate_enum', 2), ('generate_bridge', 3), ('generate_keys', 60), ('generate_io', 50), ('generate', 110),
-                     ('generate_disk', 30)], batch_seed)
+                     ('generate_disk', 30)], batch_seed, interleave_from=2)
